@@ -218,11 +218,17 @@ def gen_data2d(rng, big=5):
     nc = gen_count(rng, 4)
     nf = gen_count(rng, big)
     rows = []
+    # the per-cell point count is a u16: now and then one cell sits at a boundary of 8/16-bit arithmetic
+    boundary = rng.choice([255, 256, 257, 4095, 4096, 8191, 8192, 8193, 32767, 32768, 65535]) if rng.random() < 0.06 else None
     for _ in range(nf):
         row = []
         for _ in range(nc):
             if rng.random() < 0.35:
                 row.append(None)
+            elif boundary is not None:
+                x, y = gen_f32(rng), gen_f32(rng)
+                row.append([[x, y]] * (boundary - 1) + [[gen_f32(rng), gen_f32(rng)]])
+                boundary = None
             else:
                 row.append([[gen_f32(rng), gen_f32(rng)] for _ in range(rng.choice([1, 1, 2, 3, 5]))])
         rows.append(row)
@@ -246,7 +252,7 @@ def gen_events(rng):
     evs = []
     for _ in range(gen_count(rng, 5)):
         kind = rng.choice([0, 1])
-        nv = rng.choice([0, 1]) if kind == 0 else rng.choice([0, 1, 2, 5])
+        nv = rng.choice([0, 1]) if kind == 0 else rng.choice([0, 1, 2, 5, 5, 64, 255, 256, 300] if rng.random() < 0.1 else [0, 1, 2, 5])
         evs.append([gen_label(rng, 256), kind, [gen_f32(rng) for _ in range(nv)]])
     return [rng.choice([1, 1, 1, 0]), gen_f32(rng), evs]
 
